@@ -1,9 +1,9 @@
 package rules
 
 import (
-	"go/token"
 	"fmt"
 	"go/constant"
+	"go/token"
 	"go/types"
 	"regexp"
 	"strings"
@@ -70,7 +70,11 @@ func orderEvents(fn *ssa.Function, evs []layoutEvent) ([]layoutEvent, bool) {
 
 var fieldRe = regexp.MustCompile(`p:[A-Za-z_]+\.([A-Za-z_]+)`)
 
+var spillRe = regexp.MustCompile(`\*\(&p:([A-Za-z_][A-Za-z_0-9]*)\)`)
+
 func fieldOfPath(p string) string {
+	// a parameter that lives in a cell because a literal captures it is still that parameter
+	p = spillRe.ReplaceAllString(p, "p:$1")
 	if m := fieldRe.FindStringSubmatch(p); m != nil {
 		return m[1]
 	}
@@ -317,7 +321,9 @@ func RuleD5(c *Ctx) {
 	}
 	// ReadPoint / ReadScalar internals
 	c.d5Reader("ReadPoint", c.constOf("banderwagon", "CompressedSize"), func(f *ssa.Function) bool { return core.IsMethod(f, "/banderwagon", "Element", "SetBytes") }, "banderwagon.(*Element).SetBytes (validating)")
-	c.d5Reader("ReadScalar", c.constOf("bandersnatch/fr", "Bytes"), func(f *ssa.Function) bool { return core.IsMethod(f, "bandersnatch/fr", "Element", "SetBytesLECanonical") }, "fr.(*Element).SetBytesLECanonical (canonical)")
+	c.d5Reader("ReadScalar", c.constOf("bandersnatch/fr", "Bytes"), func(f *ssa.Function) bool {
+		return core.IsMethod(f, "bandersnatch/fr", "Element", "SetBytesLECanonical")
+	}, "fr.(*Element).SetBytesLECanonical (canonical)")
 	c.FloorN("D5", 4, len(wev), "serialised fields")
 }
 
